@@ -411,12 +411,13 @@ class MinFlowDecompCycles(walkmodel.AbstractWalkModelDiGraph):
         if self._lowerbound_k != None:
             return self._lowerbound_k
         
-        stDiGraph = stdigraph.stDiGraph(self.G)
+        stDiGraph = stdigraph.stDiGraph(self.G, additional_starts=self.additional_starts, additional_ends=self.additional_ends)
 
         # Checking if we have been given some lowerbound to start with
         self._lowerbound_k = self.optimization_options.get("lowerbound_k", 1)
 
-        self._lowerbound_k = max(self._lowerbound_k, stDiGraph.get_width(edges_to_ignore=self.edges_to_ignore))
+        # As in the k-models, the synthetic source/sink edges must not count towards the width
+        self._lowerbound_k = max(self._lowerbound_k, stDiGraph.get_width(edges_to_ignore=list(stDiGraph.source_sink_edges) + list(self.edges_to_ignore)))
 
         if self.optimization_options.get("use_min_gen_set_lowerbound", MinFlowDecompCycles.use_min_gen_set_lowerbound):  
             mingenset_lowerbound = self._get_lowerbound_with_min_gen_set()
